@@ -803,7 +803,9 @@ func (_this *cteListener) EnterContainerRecordType(ctx *parser.ContainerRecordTy
 
 	// TODO: ExitRecordTypeBegin isn't getting called???
 
-	identifier := ctx.GetText()
+	// Only the opening token ("@name<"): the text of the whole container
+	// would be assembled again at every level of nesting.
+	identifier := ctx.GetStart().GetText()
 	cutoff := strings.IndexByte(identifier, '<')
 	_this.eventReceiver.OnRecordType([]byte(identifier[1:cutoff]))
 }
@@ -821,7 +823,9 @@ func (_this *cteListener) EnterContainerRecord(ctx *parser.ContainerRecordContex
 		_this.wrapPanic(recover(), ctx.BaseParserRuleContext)
 	}()
 
-	identifier := ctx.GetText()
+	// Only the opening token ("@name{"): the text of the whole container
+	// would be assembled again at every level of nesting.
+	identifier := ctx.GetStart().GetText()
 	cutoff := strings.IndexByte(identifier, '{')
 	_this.eventReceiver.OnRecord([]byte(identifier[1:cutoff]))
 }
